@@ -646,6 +646,11 @@ class Engine:
             return Bool(self.cond(e, st))
         if isinstance(e, ast.IfExp):
             c = self.cond(e.test, st)
+            cs = z3.simplify(c)
+            if z3.is_true(cs):
+                return self.ev(e.body, st)
+            if z3.is_false(cs):
+                return self.ev(e.orelse, st)
             st.pc.append(c)
             try:
                 a = self.ev(e.body, st)
@@ -673,6 +678,19 @@ class Engine:
         if isinstance(e, ast.Set):
             return V('cset', None, items=[self.ev(x, st) for x in e.elts])
         if isinstance(e, ast.JoinedStr):
+            if getattr(self.c, 'concrete_fstrings', False):
+                # opt-in: an f-string whose parts are all strings (no conversion / format spec) is their concatenation
+                parts = []
+                for x in e.values:
+                    if isinstance(x, ast.Constant) and isinstance(x.value, str):
+                        parts.append(Str(x.value))
+                    elif isinstance(x, ast.FormattedValue) and x.conversion == -1 and x.format_spec is None:
+                        parts.append(self.ev(x.value, st))
+                    else:
+                        parts = None
+                        break
+                if parts and all(v.kind == 'str' for v in parts):
+                    return Str(z3.Concat(*[v.t for v in parts]) if len(parts) > 1 else parts[0].t)
             return Str(z3.String(fresh('fstring')))
         if isinstance(e, ast.Dict):
             if not e.keys:
@@ -746,6 +764,8 @@ class Engine:
             return Str(z3.Concat(a.t, b.t), is_bytes=a.a.get('is_bytes', False))
         if isinstance(op, ast.Add) and a.kind in ('obj', 'str') and b.kind in ('obj', 'str'):
             return U('concat', a, b)
+        if isinstance(op, ast.Add) and a.kind in ('obj', 'tuple') and b.kind in ('obj', 'tuple'):
+            return U('concat', ObjV(to_obj(a)), ObjV(to_obj(b)))        # list + list where one side is an abstract list
         raise Unsupported(f'binop {type(op).__name__} on {a.kind}/{b.kind}')
 
     def subscript(self, e, st):
@@ -873,6 +893,10 @@ class Engine:
                     st.env[e.args[i].id] = fresh_like(st.env[e.args[i].id], e.args[i].id)     # the callee may mutate this argument
             return r
         short = name.split('.')[-1] if name else ''
+        if isinstance(e.func, ast.Attribute) and ('.' + e.func.attr) in self.hooks and not any(isinstance(a, ast.Starred) for a in e.args):
+            # method-name hook ('.subn', '.join', ...): binds whatever expression the receiver is, so that re-spelling the receiver does not unbind the contract
+            self.point('call', e.func.attr, e, st)
+            return self.hooks['.' + e.func.attr](self, e, st, [self.ev(a, st) for a in e.args])
         # pure uninterpreted function of the arguments; repo functions get normalised argument lists
         target = getattr(self.c, 'callees', {}).get(name)
         if target is not None:
@@ -982,6 +1006,23 @@ class Engine:
         value is Bool(truth of e) computed by `cond` (each call is evaluated exactly once either way)."""
         if e is None:
             return [(st, NONE)]
+        if isinstance(e, ast.Subscript) and not isinstance(e.slice, ast.Slice) and getattr(self.c, 'index_forks', False) and not as_cond:
+            # opt-in: `text[i]` on a str forks into the in-range value and IndexError (Python's rule: -len <= i < len)
+            a = self.ev(e.value, st)
+            if a.kind == 'str' and not a.a.get('is_bytes', False):
+                i = self.ev(e.slice, st)
+                if i.kind != 'int':
+                    raise Unsupported('string index of kind ' + i.kind)
+                n = z3.Length(a.t)
+                ok = z3.And(i.t >= -n, i.t < n)
+                out = []
+                s_ok = st.fork(ok, f'L{e.lineno}:index-ok')
+                if self.feasible(s_ok):
+                    out.append((s_ok, Str(z3.SubString(a.t, z3.If(i.t < 0, n + i.t, i.t), 1))))
+                s_bad = st.fork(z3.Not(ok), f'L{e.lineno}:IndexError')
+                if self.feasible(s_bad):
+                    out.append((s_bad, Outcome('raise', exc='IndexError')))
+                return out
         final = (lambda s: Bool(self.cond(e, s))) if as_cond else (lambda s: self.ev(e, s))
         calls = self.forking_calls(e)
         if not calls:
@@ -1411,18 +1452,41 @@ def cvc5_check(smt2, seconds=20):
         os.unlink(path)
 
 
+def _model_is_valid(s, m):
+    """z3's sequence solver occasionally answers `sat` with a model that does not satisfy the assertions (seen on string +
+    uninterpreted-function queries: 3 of 12 identical runs).  A model under which some assertion evaluates to literally False is
+    rejected; assertions that stay symbolic (quantifiers) are not judged."""
+    try:
+        for a in s.assertions():
+            if z3.is_false(m.eval(a, model_completion=True)):
+                return False
+    except z3.Z3Exception:
+        return True
+    return True
+
+
 def discharge(pc, claim, timeout_ms=10000):
-    """-> (status, backend, secs, model|None); status in proved/refuted/undecided"""
+    """-> (status, backend, secs, model|None); status in proved/refuted/undecided.
+    A `sat` answer counts only with a model that satisfies the assertions; otherwise the query is repeated with other seeds and
+    then handed to cvc5 (an invalid model never becomes a refutation)."""
     t0 = time.time()
-    s = z3.Solver()
-    s.set('timeout', timeout_ms)
-    s.add(*pc)
-    s.add(z3.Not(claim))
-    r = s.check()
-    if r == z3.unsat:
-        return 'proved', 'z3', time.time() - t0, None
-    if r == z3.sat:
-        return 'refuted', 'z3', time.time() - t0, s.model()
+    s = None
+    for attempt in range(4):
+        s = z3.Solver()
+        s.set('timeout', timeout_ms)
+        if attempt:
+            s.set('random_seed', attempt)
+        s.add(*pc)
+        s.add(z3.Not(claim))
+        r = s.check()
+        if r == z3.unsat:
+            return 'proved', 'z3', time.time() - t0, None
+        if r == z3.sat:
+            m = s.model()
+            if _model_is_valid(s, m):
+                return 'refuted', 'z3', time.time() - t0, m
+            continue            # invalid model: ask again
+        break
     r2 = cvc5_check(s.to_smt2())
     if r2 == 'unsat':
         return 'proved', 'cvc5', time.time() - t0, None
